@@ -185,6 +185,15 @@ def gen_schema(rng, sw):
             if not sw.get("dyn_items") and is_dynamic(schema, item):
                 item = rng.choice(idx_sc)
             nd = rng.choice([1, 1, 1, 2, 2, 3]) if sw.get("nd") else 1
+            cyc = False
+            if sw.get("cyc3") and rng.random() < 0.5:
+                # 3-D with an axis order that is not its own inverse, items of dynamic
+                # size where the schema has any: the corner in which a permutation and
+                # its inverse differ (everything 1-D/2-D/C/F hides a mix-up of the two)
+                nd, cyc = 3, True
+                dyn = [i for i in range(len(schema)) if schema[i]["k"] in ("str", "struct", "array") and is_dynamic(schema, i) and depth(schema, i) <= max_depth - 1]
+                if dyn and sw.get("dyn_items") and rng.random() < 0.7:
+                    item = rng.choice(dyn)
             shape = []
             for _d in range(nd):
                 if sw.get("dyn_shape") and rng.random() < 0.45:
@@ -193,7 +202,9 @@ def gen_schema(rng, sw):
                     shape.append(rng.choice([1, 2, 2, 3, 4]))
             order = list(range(nd))
             order_decl = None
-            if nd > 1 and sw.get("orders") and rng.random() < 0.6:
+            if cyc:
+                order = rng.choice([[1, 2, 0], [2, 0, 1]])
+            elif nd > 1 and sw.get("orders") and rng.random() < 0.6:
                 r = rng.random()
                 if r < 0.3:
                     order = list(range(nd - 1, -1, -1))
